@@ -118,13 +118,13 @@ REGISTRY = {
     "C07": {"jobs": LEMMAS_BER + ASN1_FUNCS, "native": "native_c07.py",
             "assumptions": ["len(x) < 2^63 for every octet string (CPython sys.maxsize); INTEGER contents of at most 2^40 octets",
                             "inlined without a contract of their own: ASN1Tag.universal_tag, ASN1Reader.__init__/__bool__, ASN1Writer.__init__/__enter__/push_sequence/push_set (executed symbolically at every call site)"]},
-    "C01": {"jobs": VALUE_DECODERS + RT_LEMMAS, "frames": {"rules": ["F1-no-module-state", "F2-no-class-attribute-writes", "F3-no-mutable-defaults"], "modules": ["_messages", "_filter", "_controls", "_authentication", "asn1"]}, "native": "native_messages.py", "level": "other",
+    "C01": {"jobs": VALUE_DECODERS + RT_LEMMAS, "frames": {"rules": ["F1-no-module-state", "F2-no-class-attribute-writes", "F3-no-mutable-defaults", "F5-options-read-only", "F5-no-hidden-option-state"], "modules": ["_messages", "_filter", "_controls", "_authentication", "asn1"]}, "native": "native_messages.py", "level": "other",
             "explanation": _VD_NOTE + "The encode side is C03's encoding relation. Round trip theorems (specs/ldapmsg.py, proved like any function): with the encoder's postcondition and the decoder's postcondition as hypotheses over the same octets, every decoded field equals the encoded one - "
                            "for BindResponse, ExtendedResponse (hence SearchResultDone: LDAPResult alone), ExtendedRequest, BindRequest with either credential choice, the six fixed components of SearchRequest, the AttributeValueAssertion filter choices, `present`, extensibleMatch and substrings, Control, PartialAttribute, and every list of strings / octet strings (referrals, URIs of a SearchResultReference, attribute selection, attribute values: same length, same items); text fields modulo unutf8(utf8(t)) == t. "
                            "For the other message kinds, controls and filters the composition is the bounded evaluation: "
                            "Contract unpack(pack(m)) == m (reader exhausted, re-encoding identical; known controls may expose their raw value), evaluated over a stated bounded set of messages of all nine kinds. "
                            "The byte layer below (every TLV written is read back identically, all integers) is proved under C07; the per-message node-level contracts are not discharged deductively yet."},
-    "C03": {"jobs": ENCODE_TREE + [j("specs.ldapmsg:lemma_strs_snoc"), j("specs.ldapmsg:lemma_octs_snoc")], "frames": {"rules": ["F1-no-module-state", "F2-no-class-attribute-writes", "F3-no-mutable-defaults"], "modules": ["_messages", "_filter", "_controls", "_authentication", "asn1"]}, "native": "native_messages.py", "level": "other",
+    "C03": {"jobs": ENCODE_TREE + [j("specs.ldapmsg:lemma_strs_snoc"), j("specs.ldapmsg:lemma_octs_snoc")], "frames": {"rules": ["F1-no-module-state", "F2-no-class-attribute-writes", "F3-no-mutable-defaults", "F5-options-read-only", "F5-no-hidden-option-state"], "modules": ["_messages", "_filter", "_controls", "_authentication", "asn1"]}, "native": "native_messages.py", "level": "other",
             "assumptions": _ENC_ASSUME[1:] + ["closed world: credentials, filters and controls are instances of the library's own classes; the abstract base methods (AuthenticationCredential.pack, LDAPFilter.pack) "
                                               "carry the contract 'appends exactly one element', what the element is being stated and proved per concrete class",
                                               "three loops over lists of *objects* (filters of and / or, attributes of SearchResultEntry, controls of the envelope) are verified for totality and for the enclosing element only: "
@@ -135,7 +135,7 @@ REGISTRY = {
                            "(referrals, URIs, attribute selections, attribute values, substrings 'any') by loop invariants over strs_enc / octs_enc with induction lemmas. By lemma_tlv_roundtrip (C07) a strict decoder reads such octets back uniquely. "
                            "Not proved (hence level 'other'): the accumulation over lists of objects (and / or filters, PartialAttributeList, Controls) and the decoder side; the contract rfc4511.decode(m.pack(), strict) == abstract(m) "
                            "against the independent codec (specs/rfc4511.py) is evaluated over the bounded message set for those. One clause is a listed known finding (UnbindRequest written constructed)."},
-    "C04": {"jobs": VALUE_DECODERS, "frames": {"rules": ["F1-no-module-state", "F2-no-class-attribute-writes", "F3-no-mutable-defaults"], "modules": ["_messages", "_filter", "_controls", "_authentication", "asn1"]}, "native": "native_messages.py", "level": "other",
+    "C04": {"jobs": VALUE_DECODERS, "frames": {"rules": ["F1-no-module-state", "F2-no-class-attribute-writes", "F3-no-mutable-defaults", "F5-options-read-only", "F5-no-hidden-option-state"], "modules": ["_messages", "_filter", "_controls", "_authentication", "asn1"]}, "native": "native_messages.py", "level": "other",
             "explanation": _VD_NOTE + "Every definite length form and TRUE = any non-zero octet are proved for all inputs at the byte layer (C07: _read_asn1_header equals the X.690 denotation; _read_asn1_boolean). "
                            "At the message layer the contract unpack(encode_with_freedoms(abstract(m))) == m is evaluated over the bounded message set x 10 freedom combinations (extra length octets at every node, TRUE as 01/80/7F, explicit defaults, unknown trailing elements incl. ones whose tag number coincides with a known component in another class)."},
     "C02": {"jobs": RECEIVE + LEMMAS_FRAMING + FRAME_READERS + [j("asn1:ASN1Reader.read_octet_string")], "native": "native_receive.py",
